@@ -134,3 +134,17 @@ Theorem C16_version_counts_the_writes : forall c ops, hist_ok ops ->
   r_ver x = Z.of_nat (length (filter (by_run (r_run x)) h1)) + 1.
 Proof. exact version_counts_the_writes. Qed.
 Print Assumptions C16_version_counts_the_writes.
+
+(* "Across all writes to a run its workflow name, foreign ID, run ID and creation time never change, its version ... grows by exactly
+   1 per write, its update time never goes backwards", read off the ghost history of committed writes: every committed write of a run
+   other than its first stands in these relations to the write of that run it replaced *)
+From WF Require Import proofs.TokenFacts.
+Theorem C16_persisted_identity_and_versions : forall c ops, hist_ok ops ->
+  forall h1 x h2 p, w_hist (fst (run_ops c ops)) = h1 ++ x :: h2 -> lastrun h1 x = Some p ->
+  r_wf x = r_wf p /\ r_fid x = r_fid p /\ r_run x = r_run p /\ r_created x = r_created p /\
+  r_ver x = r_ver p + 1 /\ r_updated p <= r_updated x.
+Proof.
+  intros c ops H h1 x h2 p E L. pose proof (persisted_sequence_facts c ops H h1 x h2 E) as F. rewrite L in F.
+  repeat split; [apply (sf_wf _ _ _ F)|apply (sf_fid _ _ _ F)|apply (sf_run _ _ _ F)|apply (sf_created _ _ _ F)|apply (sf_ver _ _ _ F)|apply (sf_updated _ _ _ F)].
+Qed.
+Print Assumptions C16_persisted_identity_and_versions.
